@@ -97,13 +97,18 @@ class SyntaxParserOfLark:
 			except Exception as e:
 				raise Errors.Syntax(source_path, e) from e
 
-		identity = {
-			'grammar_mtime': str(self.__datums.mtime(self.__setting.grammar)),
-			'grammar': self.__setting.grammar,
-			'start': self.__setting.start,
-			'algorithem': self.__setting.algorithem,
-			'mtime': str(self.__sources.mtime(source_path)),
-		}
+		try:
+			identity = {
+				'grammar_mtime': str(self.__datums.mtime(self.__setting.grammar)),
+				'grammar': self.__setting.grammar,
+				'start': self.__setting.start,
+				'algorithem': self.__setting.algorithem,
+				'mtime': str(self.__sources.mtime(source_path)),
+				'hash': self.__sources.hash(source_path),
+			}
+		except UnicodeDecodeError as e:
+			# ハッシュ値の取得はソースをデコードする。デコード不能なソースは解析不能なソースとして報告する
+			raise Errors.Syntax(source_path, e) from e
 		decorator = self.__caches.get(basepath, identity=identity, format='json')
 		return decorator(instantiate)().entry
 
